@@ -158,3 +158,196 @@ func (f *VerifExpORForger) Run(a, b, n, r int64, bitlen uint, step int) bool {
 	vlist = s.commitmentsFromProof(g, vlist, challenge, &vbases, &vproofs, proof)
 	return challenge.Cmp(common.HashCommit(vlist, false)) == 0
 }
+
+// ---------------------------------------------------------------------------------------------------------------------
+// Cheating prover for the whole key-correctness proof on a modulus N = P*Q whose factor Q = 2*r^3+1 is prime but NOT a safe
+// prime (q' = r^3 is a prime power): all four Gennaro-style component proofs hold for such an N by design, only the proof
+// that q' is prime excludes it. The prover below is ValidKeyProofStructure.BuildProof with the prover of the
+// QprimeIsPrimeProof slot exchangeable and with almost-safe-prime-product responses computed modulo p'*r^3 (Hensel
+// lifting). (Derived from the demonstration of an independent sub-agent; used by the external harness for property C17.)
+
+// verifSqrtPrimePower returns a square root of a modulo r^k (r odd prime, a a unit).
+func verifSqrtPrimePower(a, r *big.Int, k int) (*big.Int, bool) {
+	ar := new(big.Int).Mod(a, r)
+	if ar.Sign() == 0 {
+		return nil, false
+	}
+	s, ok := common.PrimeSqrt(ar, r)
+	if !ok {
+		return nil, false
+	}
+	mod := new(big.Int).Exp(r, big.NewInt(int64(k)), nil)
+	am := new(big.Int).Mod(a, mod)
+	for range k { // Newton iterations modulo r^k; precision doubles every round
+		inv := new(big.Int).ModInverse(new(big.Int).Lsh(s, 1), mod)
+		d := new(big.Int).Sub(new(big.Int).Mul(s, s), am)
+		s.Sub(s, d.Mul(d, inv))
+		s.Mod(s, mod)
+	}
+	if new(big.Int).Mod(new(big.Int).Mul(s, s), mod).Cmp(am) != 0 {
+		return nil, false
+	}
+	return s, true
+}
+
+// verifASPPBuildProofPrimePower is almostSafePrimeProductBuildProof for Pprime prime and Qprime = r^k.
+func verifASPPBuildProofPrimePower(Pprime, r *big.Int, k int, challenge, index *big.Int, commit almostSafePrimeProductCommit) AlmostSafePrimeProductProof {
+	Qprime := new(big.Int).Exp(r, big.NewInt(int64(k)), nil)
+	proof := AlmostSafePrimeProductProof{Nonce: commit.nonce, Commitments: commit.commitments}
+
+	N := new(big.Int).Mul(new(big.Int).Add(new(big.Int).Lsh(Pprime, 1), big.NewInt(1)), new(big.Int).Add(new(big.Int).Lsh(Qprime, 1), big.NewInt(1)))
+	phiN := new(big.Int).Lsh(new(big.Int).Mul(Pprime, Qprime), 2)
+	oddPhiN := new(big.Int).Mul(Pprime, Qprime)
+
+	sqrt := func(x *big.Int) (*big.Int, bool) {
+		rp, ok := common.PrimeSqrt(new(big.Int).Mod(x, Pprime), Pprime)
+		if !ok {
+			return nil, false
+		}
+		rq, ok := verifSqrtPrimePower(x, r, k)
+		if !ok {
+			return nil, false
+		}
+		return common.Crt(rp, Pprime, rq, Qprime), true
+	}
+
+	for i := range almostSafePrimeProductIters {
+		curc := common.GetHashNumber(challenge, index, i, uint(2*N.BitLen()))
+		log := new(big.Int).Mod(new(big.Int).Add(commit.logs[i], curc), phiN)
+
+		x1 := new(big.Int).Mod(log, oddPhiN)
+		x2 := new(big.Int).Sub(oddPhiN, x1)
+		x3 := new(big.Int).Mod(new(big.Int).Mul(new(big.Int).ModInverse(big.NewInt(2), oddPhiN), x1), oddPhiN)
+		x4 := new(big.Int).Sub(oddPhiN, x3)
+
+		var resp *big.Int
+		for _, x := range []*big.Int{x1, x2, x3, x4} {
+			if s, ok := sqrt(x); ok {
+				resp = s
+				break
+			}
+		}
+		if resp == nil {
+			panic("verif: none of +-x, +-x/2 is a square")
+		}
+		proof.Responses = append(proof.Responses, resp)
+	}
+	return proof
+}
+
+// verifBuildProofWithSlots is ValidKeyProofStructure.BuildProof with the prover of the QprimeIsPrimeProof slot and the prover
+// of the almost-safe-prime-product responses exchangeable.
+func verifBuildProofWithSlots(
+	s *ValidKeyProofStructure, Pprime, Qprime *big.Int,
+	qSlot primeProofStructure,
+	aspp func(challenge, index *big.Int, commit almostSafePrimeProductCommit) AlmostSafePrimeProductProof,
+) ValidKeyProof {
+	GroupPrime := findSafePrime(s.n.BitLen() + 2*rangeProofEpsilon + 10)
+	g, gok := zkproof.BuildGroup(GroupPrime)
+	if !gok {
+		panic("no group")
+	}
+
+	P := new(big.Int).Add(new(big.Int).Lsh(Pprime, 1), big.NewInt(1))
+	Q := new(big.Int).Add(new(big.Int).Lsh(Qprime, 1), big.NewInt(1))
+	N := new(big.Int).Mul(P, Q)
+	phiN := new(big.Int).Lsh(new(big.Int).Mul(Pprime, Qprime), 2)
+
+	list, PprimeSecret := s.pprime.commitmentsFromSecrets(g, nil, Pprime)
+	list, QprimeSecret := s.qprime.commitmentsFromSecrets(g, list, Qprime)
+	list, PSecret := s.p.commitmentsFromSecrets(g, list, P)
+	list, QSecret := s.q.commitmentsFromSecrets(g, list, Q)
+
+	PQNRel := newSecret(g, "pqnrel", new(big.Int).Mod(new(big.Int).Mul(PSecret.hider.secretv, QSecret.secretv.secretv), g.Order))
+
+	bases := zkproof.NewBaseMerge(&g, &PSecret, &QSecret, &PprimeSecret, &QprimeSecret)
+	secrets := zkproof.NewSecretMerge(&PSecret, &QSecret, &PprimeSecret, &QprimeSecret, &PQNRel)
+
+	var PprimeIsPrimeCommit, QSlotCommit primeProofCommit
+	var asppCommit almostSafePrimeProductCommit
+	var BasesValidCommit isSquareProofCommit
+	list = append(list, GroupPrime)
+	list = append(list, s.n)
+	list = s.pPprimeRel.CommitmentsFromSecrets(g, list, &bases, &secrets)
+	list = s.qQprimeRel.CommitmentsFromSecrets(g, list, &bases, &secrets)
+	list = s.pQNRel.CommitmentsFromSecrets(g, list, &bases, &secrets)
+	list, PprimeIsPrimeCommit = s.pprimeIsPrime.commitmentsFromSecrets(g, list, &bases, &secrets)
+	list, QSlotCommit = qSlot.commitmentsFromSecrets(g, list, &bases, &secrets)
+	list, asppCommit = almostSafePrimeProductBuildCommitments(list, Pprime, Qprime)
+	list, BasesValidCommit = s.basesValid.commitmentsFromSecrets(g, list, P, Q)
+
+	challenge := common.HashCommit(list, false)
+
+	return ValidKeyProof{
+		GroupPrime:         GroupPrime,
+		PQNRel:             PQNRel.buildProof(g, challenge),
+		PProof:             s.p.buildProof(g, challenge, PSecret),
+		QProof:             s.q.buildProof(g, challenge, QSecret),
+		PprimeProof:        s.pprime.buildProof(g, challenge, PprimeSecret),
+		QprimeProof:        s.qprime.buildProof(g, challenge, QprimeSecret),
+		Challenge:          challenge,
+		PprimeIsPrimeProof: s.pprimeIsPrime.buildProof(g, challenge, PprimeIsPrimeCommit, &secrets),
+		QprimeIsPrimeProof: qSlot.buildProof(g, challenge, QSlotCommit, &secrets),
+		QSPPproof: QuasiSafePrimeProductProof{
+			SFproof:   squareFreeBuildProof(N, phiN, challenge, big.NewInt(0)),
+			PPPproof:  primePowerProductBuildProof(P, Q, challenge, big.NewInt(1)),
+			DPPproof:  disjointPrimeProductBuildProof(P, Q, challenge, big.NewInt(2)),
+			ASPPproof: aspp(challenge, big.NewInt(3), asppCommit),
+		},
+		BasesValidProof: s.basesValid.buildProof(g, challenge, BasesValidCommit),
+	}
+}
+
+// VerifFindPrimePowerKey searches (deterministically) for
+//
+//	P = 2p'+1 a safe prime, p' = 7 (mod 8)
+//	Q = 2r^3+1 prime, r prime, r = 5 (mod 24)
+//
+// so that P = 7, Q = 3 (mod 8), N = 5 (mod 8), N = 1 (mod 3), and -1, 2 generate all quadratic characters modulo
+// P*Q and modulo p'*r (so the prime-power-product and almost-safe-prime-product responses always exist).
+func VerifFindPrimePowerKey() (Pprime, r, Q *big.Int) {
+	r = big.NewInt(1700021 - 1700021%24 + 5)
+	for {
+		r.Add(r, big.NewInt(24))
+		if !r.ProbablyPrime(40) {
+			continue
+		}
+		Q = new(big.Int).Exp(r, big.NewInt(3), nil)
+		Q.Lsh(Q, 1).Add(Q, big.NewInt(1))
+		if Q.ProbablyPrime(40) {
+			break
+		}
+	}
+	Pprime = new(big.Int).Lsh(big.NewInt(3), 61) // 1.5 * 2^62
+	Pprime.Add(Pprime, big.NewInt(7))
+	for {
+		Pprime.Add(Pprime, big.NewInt(8))
+		if !Pprime.ProbablyPrime(40) {
+			continue
+		}
+		P := new(big.Int).Add(new(big.Int).Lsh(Pprime, 1), big.NewInt(1))
+		if P.ProbablyPrime(40) {
+			break
+		}
+	}
+	return
+}
+
+// VerifForgeKeyProofPrimePowerFactor builds the forged proof for N = (2*Pprime+1)*(2*r^3+1) with the given bases, filling
+// the slot of the primality proof of q' with a primality proof about the secret named slotSecret ("pprime": a true
+// statement about the other factor; "qprime": the false statement itself), and returns the verifier's verdict together
+// with the verdict of the quasi-safe-prime-product part alone. It may panic where the honest sub-provers cannot proceed.
+func VerifForgeKeyProofPrimePowerFactor(Pprime, r *big.Int, bases []*big.Int, slotSecret string) (accepted, qsppHolds bool) {
+	Qprime := new(big.Int).Exp(r, big.NewInt(3), nil)
+	P := new(big.Int).Add(new(big.Int).Lsh(Pprime, 1), big.NewInt(1))
+	Q := new(big.Int).Add(new(big.Int).Lsh(Qprime, 1), big.NewInt(1))
+	N := new(big.Int).Mul(P, Q)
+	s := NewValidKeyProofStructure(N, bases)
+	qSlot := newPrimeProofStructure(slotSecret, uint((N.BitLen()+1)/2))
+	forged := verifBuildProofWithSlots(&s, Pprime, Qprime, qSlot,
+		func(challenge, index *big.Int, commit almostSafePrimeProductCommit) AlmostSafePrimeProductProof {
+			return verifASPPBuildProofPrimePower(Pprime, r, 3, challenge, index, commit)
+		})
+	qsppHolds = quasiSafePrimeProductVerifyStructure(forged.QSPPproof) && quasiSafePrimeProductVerifyProof(N, forged.Challenge, forged.QSPPproof)
+	return s.VerifyProof(forged), qsppHolds
+}
